@@ -42,7 +42,8 @@ PROBES = ['incremental_update', 'restart_appeared_between_calls',
           'single_iteration_level', 'repeated_call', 'fresh_scan_compared',
           'keys_parsed', 'files_parsed', 'parameters_parsed',
           'nothing_to_process', 'writer_running_during_call',
-          'checkpoints_per_proc', 'enum_permuted', 'overall_checked']
+          'checkpoints_per_proc', 'enum_permuted', 'overall_checked',
+          'group_vars_change', 'per_level_components']
 COMPONENTS = {
     'aurel.reading.iterations/read_iterations/collect_overall_iterations/'
     'get_content/parse_hdf5_key/parse_h5file/parameters': 'real',
@@ -92,7 +93,7 @@ def generate(rng, tier):
     hostile = rng.chance(0.45)
     cfg = etsim.gen_config(rng, hostile_names=hostile, max_restarts=4,
                            decomp_classes=('tensor', 'hier'), max_P=6,
-                           mixed_grouping_p=0.0)
+                           mixed_grouping_p=0.0, group_vars_change_p=0.3)
     g = rng.child('ops')
     enum = {'mode': g.pick(['sorted', 'reverse', 'shuffle']),
             'seed': g.randrange(1 << 30)}
@@ -161,7 +162,8 @@ def expected_restart_entry(sim, cfg, r):
     outs = sim.outputs[r]
     e = {}
     if any(outs.get(rl) for rl in outs):
-        e['var available'] = expected_var_available(etsim.sim_vars(cfg))
+        e['var available'] = expected_var_available(
+            etsim.restart_vars(cfg, r))
         allits = sorted(it for its in outs.values() for it in its)
         e['its available'] = [allits[0], allits[-1]]
         for rl in sorted(outs):
@@ -238,6 +240,10 @@ def execute(run):
         fault('hostile_path')
     if any(rs.get('chk_per_proc') for rs in cfg['restarts']):
         probe('checkpoints_per_proc')
+    if any(rs.get('mygroup_vars') for rs in cfg['restarts']):
+        fault('group_vars_change')
+    if any(len({len(b) for b in rs['boxes']}) > 1 for rs in cfg['restarts']):
+        fault('per_level_components')
     cat = iosim.Catalogued()
     checked = 0
     last_mem = None            # last dict returned by iterations()
